@@ -916,7 +916,7 @@ class Interp:
                     if name == 'get_key_value':
                         return ('ctor', SOME, ((k_, v_),))
                     return ('ctor', SOME, ((hit, k_, v_),))
-                if name == 'get' and len(args) == 1 and isinstance(args[0], int):
+                if name in ('get', 'get_mut') and len(args) == 1 and isinstance(args[0], int) and not isinstance(args[0], bool):
                     return ('ctor', SOME, (recv[args[0]],)) if 0 <= args[0] < len(recv) else ('ctor', NONE)
                 if name in ('split_at', 'split_at_mut') and len(args) == 1 and isinstance(args[0], int) and not isinstance(args[0], bool):
                     if isinstance(recv, str):
